@@ -379,7 +379,17 @@ func vC04Copy[T vScalar]() {
 		} else {
 			ws = Shape(shape).CalcStrides()
 		}
-		vAssertKF(vIntsEqC(ws, cp.Strides()), "copy-strides-match-data-order", kfID, kfColX)
+		// (the stride of an axis of length one addresses nothing and may be anything)
+		cs2 := cp.Strides()
+		okS := len(ws) == len(cs2)
+		if okS {
+			for i := range ws {
+				if shape[i] > 1 && ws[i] != cs2[i] {
+					okS = false
+				}
+			}
+		}
+		vAssertKF(okS, "copy-strides-match-data-order", kfID, kfColX)
 	}
 	vAssert(!vSameBacking(cp.Data(), src.Data()), "no-shared-backing")
 	// independence: a symbolic write through the copy leaves the source unchanged, and vice versa
